@@ -14,96 +14,17 @@ open Portus Portus.Lang Portus.Vm Portus.Lang.Frag
 
 /-! ## the oracle's fragment: stratified programs, plus hazard-free nested binds
 
-The theorem (`C01Sim.compiled_run_correct`) is about `Stratified` programs. The oracle decides more: a plain bind
-`(:= y e)` may also occur *as a value* inside an expression, provided no operator reads, as its left operand, a
-variable that its right operand assigns (operand registers are read when the consuming instruction runs, DESIGN 6.3:
-there the datapath sees the later value and the documentation is silent), and the nested target is an ordinary
-variable (not a built-in register, whose write transforms the value). On such programs the source semantics is
-unambiguous, and the check compares it with what the real datapath computes. -/
+The definitions (`writesIn`, `resultName`, `noHazard`, `valueE`, `stmtOk2`, `InOracle`) live in `Lang/Fragment.lean`
+(namespace `Portus.Lang.Frag`) since the simulation theorem (`C01Sim.compiled_run_correct`) is now about exactly this
+fragment; they are re-exported here under their former names `Portus.C01.*`. A plain bind `(:= y e)` may occur *as a
+value* inside an expression, provided no operator reads, as its left operand, a variable that its right operand
+assigns (operand registers are read when the consuming instruction runs, DESIGN 6.3: there the datapath sees the
+later value and the documentation is silent), and the nested target is an ordinary variable (not a built-in register,
+whose write transforms the value). On such programs the source semantics is unambiguous; the check compares it with
+what the real datapath computes, and the theorem proves that the compiled code computes it. -/
 
-def writesIn : Expr → List Name
-  | .sexp .bind (.atom (.name x)) r => x :: writesIn r
-  | .sexp _ l r => writesIn l ++ writesIn r
-  | _ => []
-
-/-- the variable whose register is the operand's result register, if any -/
-def resultName : Expr → Option Name
-  | .atom (.name x) => some x
-  | .sexp .bind (.atom (.name x)) _ => some x
-  | _ => none
-
-def noHazard (l r : Expr) : Bool :=
-  match resultName l with
-  | some x => !(writesIn r).contains x
-  | none => true
-
-/-- usable as a value: operators over atoms and nested plain binds to ordinary variables, hazard-free -/
-def valueE : Expr → Bool
-  | .atom _ => true
-  | .sexp .bind (.atom (.name x)) r => !isBuiltinName x && valueE r
-  | .sexp o l r =>
-    (match o with | .bind | .if | .notIf | .ewma | .def => false | _ => true) && valueE l && valueE r && noHazard l r
-  | _ => false
-
-def stmtOk2 : Expr → Bool
-  | .none => true
-  | .sexp .bind (.atom (.name _)) (.sexp .if c v) => valueE c && valueE v && noHazard c v
-  | .sexp .bind (.atom (.name _)) (.sexp .notIf c v) => valueE c && valueE v && noHazard c v
-  | .sexp .bind (.atom (.name _)) (.sexp .ewma a v) => valueE a && valueE v && noHazard a v
-  | .sexp .bind (.atom (.name _)) r => valueE r
-  | _ => false
-
-/-- the programs the oracle decides -/
-def InOracle (evs : List Event) : Bool := evs.all fun ev => pureE ev.flag && ev.body.all stmtOk2
-
-theorem writesIn_pure {e : Expr} (h : pureE e = true) : writesIn e = [] := by
-  induction e with
-  | atom p => rfl
-  | cmd c => simp [pureE] at h
-  | none => simp [pureE] at h
-  | sexp o l r ihl ihr =>
-    simp only [pureE, Bool.and_eq_true] at h
-    obtain ⟨⟨ho, hl⟩, hr⟩ := h
-    cases o <;> simp_all [writesIn]
-
-theorem valueE_of_pure {e : Expr} (h : pureE e = true) : valueE e = true := by
-  induction e with
-  | atom p => rfl
-  | cmd c => simp [pureE] at h
-  | none => simp [pureE] at h
-  | sexp o l r ihl ihr =>
-    simp only [pureE, Bool.and_eq_true] at h
-    obtain ⟨⟨ho, hl⟩, hr⟩ := h
-    have hw := writesIn_pure hr
-    have hn : noHazard l r = true := by
-      unfold noHazard; split <;> simp [hw]
-    cases o <;> simp_all [valueE]
-
-theorem noHazard_of_pure {l r : Expr} (hr : pureE r = true) : noHazard l r = true := by
-  unfold noHazard; split <;> simp [writesIn_pure hr]
-
-theorem stmtOk2_of_stmtOk {e : Expr} (h : stmtOk e = true) : stmtOk2 e = true := by
-  unfold stmtOk at h
-  split at h
-  · rfl
-  · simp only [Bool.and_eq_true] at h
-    simp [stmtOk2, valueE_of_pure h.1, valueE_of_pure h.2, noHazard_of_pure h.2]
-  · simp only [Bool.and_eq_true] at h
-    simp [stmtOk2, valueE_of_pure h.1, valueE_of_pure h.2, noHazard_of_pure h.2]
-  · simp only [Bool.and_eq_true] at h
-    simp [stmtOk2, valueE_of_pure h.1, valueE_of_pure h.2, noHazard_of_pure h.2]
-  · rename_i x r h1 h2 h3
-    have hv := valueE_of_pure h
-    unfold stmtOk2
-    split <;> simp_all [pureE]
-  · cases h
-
-theorem inOracle_of_stratified {evs : List Event} (h : Stratified evs = true) : InOracle evs = true := by
-  unfold Stratified at h
-  unfold InOracle
-  simp only [List.all_eq_true, Bool.and_eq_true] at h ⊢
-  intro ev hev
-  exact ⟨(h ev hev).1, fun e he => stmtOk2_of_stmtOk ((h ev hev).2 e he)⟩
+export Portus.Lang.Frag (writesIn resultName noHazard valueE stmtOk2 InOracle writesIn_pure valueE_of_pure
+  noHazard_of_pure stmtOk2_of_stmtOk inOracle_of_stratified)
 
 /-- **`C01.check`**: for a source in the fragment, the observed per-invocation behaviour of the
 datapath (which invocations fault and with which code, cwnd/rate settings, which invocations report
